@@ -51,6 +51,16 @@ CHECKS = {
          "Trusted: the expander in pyprops/c09.py (textual substitution). Parameter names never occur inside strings; "
          ".repeat bodies are position independent; a clean capacity diagnostic is accepted for the growing-argument "
          "chain only.", "DESIGN.md 3/C09"),
+ "C11": ("hypothesis+nvserve",
+         "Hypothesis scoped programs vs independent symbol resolver; ELF .symtab decoded by own reader",
+         "Generated-input search: Hypothesis builds programs of global labels, .scope/.func blocks, shadowing locals, "
+         "the same local name in many scopes, forward/backward .dc32 references, .set chains, .export, names up to 201 "
+         "characters and (two 'pool' generators) 50-100 KiB of symbol records with pool boundaries inside scope "
+         "regions. Every .dc32 word, the whole symbol table and the ELF .symtab (own decoder) must equal what an "
+         "independent resolver predicts; generated and fixed duplicate definitions, invisible locals, nested scopes and "
+         "bad exports must be rejected with a diagnostic.",
+         "Trusted: resolve() in pyprops/c11.py and read_elf() in pyprops/formats.py. .set symbols are referenced only "
+         "after assignment; references use .dc32 (no instruction sizing involved).", "DESIGN.md 3/C11"),
 }
 
 NOT_YET = "check not built yet (work in progress; see DESIGN.md section 3)"
